@@ -132,7 +132,8 @@ def scan(source: str, callback: callable):
                 # to accumulate possible property name-value pair or selector
                 if state.property_start == -1:
                     state.property_start = state.start
-                state.property_end = state.end
+                if state.end != -1:
+                    state.property_end = state.end
                 state.property_delimiter = scanner.pos - 1
                 state.start = state.end = -1
         else:
